@@ -1,6 +1,7 @@
 package main
 
 import (
+	"encoding/json"
 	"fmt"
 	"os"
 	"regexp"
@@ -232,6 +233,18 @@ func (cx *Ctx) oracleC15(rs []JobResult) (bool, string, string, string) {
 			break
 		}
 		a, b := res.Solo[i], res.Outcomes[i]
+		if os.Getenv("VERIF_DEBUG_C15") != "" && (b.Verdict == "BUDGET" || a.Verdict == "BUDGET") {
+			fmt.Fprintf(os.Stderr, "debug c15 pre: caller %d conc %s/%s ticks=%d; solo %s/%s ticks=%d spawned=%v\n", i, b.Verdict, b.Detail, b.Ticks, a.Verdict, a.Detail, a.Ticks, spawned)
+		}
+		if (a.Verdict != "OK" || b.Verdict != "OK") && !spawned {
+			// The in-process reference ran AFTER the concurrent phase, in the same process: if the concurrent phase damaged
+			// shared state for good (a free list turned into a cycle, a lock left held), the reference is damaged in the same
+			// way and "both hang" / "both panic" would look like agreement. Whenever either run did not simply return, the
+			// reference is taken again from the same call ALONE IN A FRESH PROCESS (same resolution, same per-read clock).
+			if f, ok := cx.c15FreshSolo(jr.Job, i); ok {
+				a = f
+			}
+		}
 		if a.Verdict != "BUDGET" && b.Verdict == "BUDGET" && (b.Detail == "loop" || b.Detail == "ticks" || b.Detail == "depth") && !spawned {
 			// returns when run alone, runs away next to the others. Ticks are counted per call, on the caller's own task, so
 			// the other callers' work is not in this number. A caller may legitimately do MORE work under contention (a CAS
@@ -239,16 +252,20 @@ func (cx *Ctx) oracleC15(rs []JobResult) (bool, string, string, string) {
 			// alone: "ran 20x longer than the solo runs of all callers together, and was still not done" is a call that does
 			// not return because of the others. (Heap growth is process-wide and is not judged here.)
 			var all uint64
-			for _, s := range res.Solo {
-				if s.Verdict == "BUDGET" {
-					all = 1 << 62
+			for k := range res.Solo {
+				f, ok := cx.c15FreshSolo(jr.Job, k)
+				if !ok || f.Verdict == "BUDGET" || f.Verdict == "DEADLOCK" {
+					all = 1 << 62 // some caller runs away by itself: how long the others may take next to it is not judged
 					break
 				}
-				all += s.Ticks
+				all += f.Ticks
+			}
+			if os.Getenv("VERIF_DEBUG_C15") != "" {
+				fmt.Fprintf(os.Stderr, "debug c15: caller %d conc %s/%s ticks=%d; solo(fresh?) %s ticks=%d; all=%d\n", i, b.Verdict, b.Detail, b.Ticks, a.Verdict, a.Ticks, all)
 			}
 			if b.Ticks/20 > all {
 				c := jr.Job.Calls[i]
-				what := fmt.Sprintf("caller %d of %d concurrent callers: Layout(%s; %s) %s after %d simulated ticks when run alone, but under %s it was still running after %d ticks of its own (all %d callers together need %d ticks alone): %s",
+				what := fmt.Sprintf("caller %d of %d concurrent callers: Layout(%s; %s) %s after %d simulated ticks when run alone in a fresh process, but under %s it was still running after %d ticks of its own (all %d callers together need %d ticks alone): %s",
 					i, len(jr.Job.Calls), edgesText(c.Edges), optsText(c.Opts), describe(a), a.Ticks, sched, b.Ticks, len(res.Solo), all, describe(b))
 				return true, "interference | call does not return under concurrency", what, fpOf("noreturn", b.Detail)
 			}
@@ -277,6 +294,41 @@ func (cx *Ctx) oracleC15(rs []JobResult) (bool, string, string, string) {
 		// property does not forbid a long-lived worker; they stay in the simulated process and run under later schedules
 	}
 	return false, "", "", ""
+}
+
+// c15FreshSolo runs caller i of a conc job alone in a fresh worker process (a conc job with one caller: same group
+// configuration, same resolution, same per-read clock) and returns its outcome. Cached per (call, resolution).
+func (cx *Ctx) c15FreshSolo(job *spec.Job, i int) (spec.Outcome, bool) {
+	r := job.Res[0]
+	if len(job.Res) == len(job.Calls) {
+		r = job.Res[i]
+	}
+	c := job.Calls[i]
+	c.ShareOpts = nil
+	kb, _ := json.Marshal([]any{c, r, job.Budgets})
+	key := fpOf(string(kb))
+	if cx.c15Solo == nil {
+		cx.c15Solo = map[string]*spec.Outcome{}
+	}
+	if o, ok := cx.c15Solo[key]; ok {
+		if o == nil {
+			return spec.Outcome{}, false
+		}
+		return *o, true
+	}
+	one := *cx.simFresh
+	one.N = 1
+	j := &spec.Job{ID: 0, Kind: "conc", Calls: []spec.Call{c}, Res: []spec.Resolution{r}, Sched: &spec.Schedule{Policy: "rr"}, Budgets: job.Budgets}
+	rs := one.Run([]*spec.Job{j}, nil)
+	cx.c15SoloRuns++
+	if len(rs) != 1 || rs[0].Res == nil || rs[0].Res.Error != "" || len(rs[0].Res.Outcomes) != 1 || rs[0].Res.Outcomes[0].Verdict == "HARNESS" {
+		cx.c15Solo[key] = nil
+		return spec.Outcome{}, false
+	}
+	o := rs[0].Res.Outcomes[0]
+	o.SiteExec, o.PermKinds, o.Perms, o.Stack = nil, nil, nil, ""
+	cx.c15Solo[key] = &o
+	return o, true
 }
 
 var raceFn = regexp.MustCompile(`(?m)^  (github\.com/nulab/autog[^\s(]*)\(`)
@@ -478,6 +530,7 @@ func (cx *Ctx) runC15() {
 		"verdicts":                  verdicts,
 		"sim_ticks_total":           ticks,
 		"jobs_that_died":            died,
+		"solo_references_retaken_alone_in_a_fresh_process": cx.c15SoloRuns,
 		"runs_per_hour":             int(float64(nEval) / wall * 3600),
 		"package_level_variables":   cx.Seams["vars"],
 		"package_level_accesses_static": cx.Seams["accesses"],
